@@ -84,8 +84,24 @@ package core
 //@   ensures[C01] dom(t.Data) == with(old(dom(t.Data)), key) && t.Data[key] == item
 //@   ensures[C01] forall k string :: {t.Data[k]} k != key ==> t.Data[k] == old(t.Data[k])
 
+// package-level error values: distinct sentinels created by errors.New
+//@ global errMissingField != nil && typeis(errMissingField, "*errors.errorString") && ErrInvalidAtrributeValue != nil && typeis(ErrInvalidAtrributeValue, "*errors.errorString") && errMissingField != ErrInvalidAtrributeValue
+
+// HasType: the attribute value carries the member of the declared key type
+//@ pred HasType(v *types.Item, typ string) :=
+//@   (typ == "S" && v.S != nil) || (typ == "N" && v.N != nil) || (typ == "BOOL" && v.BOOL != nil) || (typ == "B" && v.B != nil) ||
+//@   (typ == "L" && v.L != nil) || (typ == "M" && v.M != nil) || (typ == "BS" && v.BS != nil) || (typ == "SS" && v.SS != nil) || (typ == "NS" && v.NS != nil)
+
 //@ func keySchema.GetKey
 //@   pure
+//@   ensures result1 != nil ==> result0 == ""
+//@   ensures[C13] !ks.Secondary && !(ks.HashKey in item) ==> result1 != nil
+//@   ensures[C13] !ks.Secondary && ks.RangeKey != "" && !(ks.RangeKey in item) ==> result1 != nil
+//@   ensures[C13] ks.HashKey in item && !HasType(item[ks.HashKey], attrs[ks.HashKey]) ==> result1 != nil
+//@   ensures[C13] ks.RangeKey != "" && ks.HashKey in item && ks.RangeKey in item && !HasType(item[ks.RangeKey], attrs[ks.RangeKey]) ==> result1 != nil
+//@   ensures[C03] ks.Secondary && !(ks.HashKey in item) ==> result1 == nil && result0 == ""
+//@   ensures[C03] ks.Secondary && ks.RangeKey != "" && ks.HashKey in item && HasType(item[ks.HashKey], attrs[ks.HashKey]) && !(ks.RangeKey in item) ==> result1 == nil && result0 == ""
+//@   ensures[C13] ks.HashKey in item && HasType(item[ks.HashKey], attrs[ks.HashKey]) && (ks.RangeKey == "" || (ks.RangeKey in item && HasType(item[ks.RangeKey], attrs[ks.RangeKey]))) ==> result1 == nil
 
 //@ func (*Table).interpreterMatch
 //@   assumed
